@@ -119,6 +119,7 @@ fn arg_after<'a>(args: &'a [String], flag: &str) -> Option<&'a str> {
 }
 
 fn dispatch_run(prop: &str, tier: Tier, shard: Shard, rep: &mut Report) {
+    props::e1::THOROUGH.store(tier == Tier::Thorough, std::sync::atomic::Ordering::SeqCst);
     match prop {
         "C02" => props::c02::run(tier, shard, rep),
         "C03" => props::c03::run(tier, shard, rep),
